@@ -42,6 +42,13 @@ func runC06(c *Ctx) {
 	ns := g.Range(2, 5)
 	tc := TrafficCfg{NSess: ns, OpsPerSess: g.Range(4, 14), Faults: g.Bool(), Timeouts: true, Cancels: true, Meta: g.Bool(), Kills: g.Chance(1, 4)}
 	ops := GenTraffic(g, tc)
+	// some call time-outs are long (half an hour, a day): nothing the operator's call waits
+	// for may be under a client's control
+	for i := range ops {
+		if _, has := ops[i].Opts["timeout"]; has && (ops[i].Kind == tCall || ops[i].Kind == tProgCall) && g.Chance(1, 3) {
+			ops[i].Opts["timeout"] = []int{1800000, 86400000}[g.Intn(2)]
+		}
+	}
 	// what the operator does, and when
 	action := g.Weighted(5, 4, 2, 2) // 0 Close, 1 RemoveRealm(r1), 2 RemoveRealm then Close concurrently, 3 Close twice concurrently
 	delaySteps := g.Intn(60 * ns)
@@ -110,6 +117,7 @@ func runC06(c *Ctx) {
 		})
 	}
 
+	var opTook time.Duration
 	opDone := make(chan struct{})
 	closedAll := false
 	removed := map[wamp.URI]bool{}
@@ -128,6 +136,28 @@ func runC06(c *Ctx) {
 			}
 		}
 		simrt.Log("operator acts: %d", action)
+		opT0 := c.S.Elapsed()
+		defer func() {
+			// how much virtual time did the operator's call take? (nothing it waits for may be under a client's control)
+			d := c.S.Elapsed() - opT0
+			switch {
+			case d > 10*time.Minute:
+				c.Probe("operator_call_took_over_10m")
+				// bounded waits on the way are fine (a handler finishing its message: the result-retry
+				// period; a transport's close grace; a pending handshake's time-out) - ten minutes are not
+				c.Violf("the operator's call returned only after %v of virtual time: it waited for something a client controls", d)
+			case d > 70*time.Second:
+				c.Probe("operator_call_took_70s_to_10m")
+
+			case d > time.Second:
+				c.Probe("operator_call_took_1s_to_70s")
+			case d > 0:
+				c.Probe("operator_call_took_under_1s")
+			default:
+				c.Probe("operator_call_took_no_time")
+			}
+			opTook = d
+		}()
 		switch action {
 		case 0:
 			c.Fault("router_close")
@@ -155,6 +185,7 @@ func runC06(c *Ctx) {
 		}
 		simrt.Log("operator done")
 	})
+	_ = opTook
 	trafficDone := make(chan struct{})
 	simrt.Go("op:traffic", func() {
 		RunTraffic(c, clients, ops, 0)
